@@ -8,13 +8,14 @@ Tie: T-diff on the real processDeltaRequest / pushConnectionDelta / processReque
   book   - scripted generator outputs; responses and watch table vs lean/IstioModel/C03/Server.lean
   equiv  - world-based plain generators, SotW client and delta client on the same history
   equivd - same with a delta-aware CDS generator (BuildDeltaClusters-like)
+  wds    - the real WorkloadGenerator (GenerateDeltas / generateDeltasOndemand / appendAddress) over a stub ambient index
 On break: harness `oracle` compares what the two real clients hold (the property itself).
 """
 import json
 import os
 
-THEOREMS = ["IstioModel.C03.Theorems"]
-STREAMS = ("book", "equiv", "equivd")
+THEOREMS = ["IstioModel.C03.Theorems", "IstioModel.C03.WdsTheorems"]
+STREAMS = ("book", "equiv", "equivd", "wds")
 
 
 def oracle(ctx, stream, case_lines, rep):
@@ -63,6 +64,8 @@ def run(ctx):
     ctx.diff_stream("book", ctx.n(1200, 30000), oracle=oracle)
     ctx.diff_stream("equiv", ctx.n(1200, 30000), oracle=oracle)
     ctx.diff_stream("equivd", ctx.n(800, 20000), oracle=oracle)
+    # the REAL workload generator (wildcard + on-demand, version skip) over a stub ambient index
+    ctx.diff_stream("wds", ctx.n(1500, 40000), oracle=oracle)
     # second line: the property oracle on every generated case, independent of the model
     for stream in STREAMS:
         g = os.path.join(ctx.work, "%s.gen.ops" % stream)
